@@ -34,6 +34,7 @@ type gaCase struct {
 	Vals        [][][]m.Lit `json:"vals"`                // node x atom -> values of ex.p<atom>
 	Vals2       [][][]m.Lit `json:"vals2"`               // node x atom -> values of ex.q<atom> (comparisons)
 	NumStyle    int         `json:"num_style,omitempty"` // YAML spelling of the numbers in the profile
+	Route       int         `json:"route,omitempty"`     // entry point producing the report (see validateVia)
 	ProfileText string      `json:"profile_text"`
 	DataText    string      `json:"data_text"`
 }
@@ -548,6 +549,7 @@ func genC01Atoms(t *rapid.T) gaCase {
 	}
 	c.NumStyle = rapid.SampledFrom([]int{0, 0, 0, 1, 2, 3, 4, 5, 6, 7}).Draw(t, "numStyle")
 	c.ProfileText, c.DataText = c.render()
+	c.Route = rapid.SampledFrom([]int{0, 0, 1, 2, 3}).Draw(t, "route")
 	return c
 }
 
@@ -624,7 +626,7 @@ func decideC01Atoms(c gaCase) ev.Verdict {
 	if c.ProfileText == "" {
 		return ev.Verdict{Discard: true, Detail: "generated YAML does not round-trip"}
 	}
-	res := validateFixed(c.ProfileText, c.DataText)
+	res := validateVia(c.Route, c.ProfileText, c.DataText)
 	if res.failed() {
 		kinds := ""
 		for _, a := range c.Atoms {
